@@ -365,7 +365,7 @@ def plan(model, op):
             out["why"] = "property cap"
             return out
         if how == "dtype":
-            out.update(want="accept", cls="dtype:" + op["t"], tag=op["t"], new=[])
+            out.update(want="accept", cls=op["t"], tag=op["t"], new=[])
             return out
         vals = op["vals"]
         if not vals:
@@ -649,7 +649,7 @@ class Run:
         except Exception as exc:  # noqa
             status, msg, h = "raised:" + type(exc).__name__, str(exc)[:120], None
             exc_is_type = isinstance(exc, TypeError)
-        key = "create/%s/%s" % (how, pl["cls"])
+        key = "create/%s/%s" % ("list-like" if how in ("list", "tuple", "npscalars") else how, pl["cls"])
         want = pl["want"]
         if want == "accept":
             if status != "ok":
@@ -753,7 +753,9 @@ class Run:
         except Exception as exc:  # noqa
             status, msg = "raised:" + type(exc).__name__, str(exc)[:120]
             exc_is_type = isinstance(exc, TypeError)
-        key = "%s/%s/%s%s" % (kind, how, pl["cls"], state)
+        # list, tuple and lists of NumPy scalars go through the same branch of the same call site
+        site = "list-like" if how in ("list", "tuple", "npscalars") else how
+        key = "%s/%s/%s%s" % (kind, site, pl["cls"], state)
 
         def sym(suffix):
             return key + suffix
@@ -784,7 +786,10 @@ class Run:
         d = diff_values(mp.tag, expect, got) if st_ == "ok" else {"status": st_, "message": got}
         if d:
             d.update(det)
-            self.v(sym("/values-wrong" if (want == "accept" and status == "ok") else "/values-changed"), d)
+            if want != "accept" and status == "ok":
+                pass        # already reported as "accepted"; that the values changed is its consequence
+            else:
+                self.v(sym("/values-wrong" if (want == "accept" and status == "ok") else "/values-changed"), d)
             self.resync(mp, got)
 
     def do_clear(self, op, pl, ms, mp):
@@ -1085,7 +1090,7 @@ def candidate(draw, tag, how):
         return [draw(elem("t")) for _ in range(n)], draw(st.sampled_from(["U", "O"]))
     n = draw(st.integers(1, 6))
     r = draw(st.integers(0, 9))
-    if r < 5 or (how == "setitem" and False):
+    if r < 5:
         return [draw(elem(tag)) for _ in range(n)], None
     others = [x for x in TAGS if x != tag]
     if r < 7:
@@ -1352,7 +1357,7 @@ def valid_op(op):
             return False
         if kind == "assign":
             return op["how"] in ASSIGN_HOWS and how_ok(op["how"], op["vals"], "assign") and \
-                (op["how"] != "setitem" or True) and op.get("alt") in (None, "U", "O")
+                op.get("alt") in (None, "U", "O")
         if kind == "extend":
             return op["how"] in EXTEND_HOWS and how_ok(op["how"], op["vals"], "extend") and \
                 op.get("alt") in (None, "U", "O")
@@ -1382,7 +1387,7 @@ def valid(case):
 # ------------------------------------------------------------------ runner interface
 
 def shards(tier, seed):
-    nshard, per, mx = (16, 40, 28) if tier == "quick" else (64, 160, 40)
+    nshard, per, mx = (16, 25, 28) if tier == "quick" else (64, 160, 40)
     specs = [{"part": "random", "n": per, "max_ops": mx, "seed": seed * 1000 + i} for i in range(nshard)]
     specs += [{"part": "grid", "i": i, "of": 16, "seed": seed} for i in range(16)]
     return specs
